@@ -217,7 +217,8 @@ fn mnemonic_random(input: &Value) -> R {
         .and_then(Value::as_array)
         .map(|a| a.iter().filter_map(Value::as_u64).map(|x| x as usize).collect())
         .unwrap_or_default();
-    entropy::configure(feed, fail_at);
+    let errno = input.get("errno").and_then(Value::as_i64).unwrap_or(5) as std::os::raw::c_int;
+    entropy::configure(feed, fail_at, errno);
     Ok(match Mnemonic::random(Language::English, len) {
         Ok(m) => {
             let phrase = m.to_phrase();
@@ -529,6 +530,9 @@ fn cli_in(input: &Value, bin: &str, dir: &PathBuf) -> R {
         }
         if let Some(k) = shim.get("fail_from").and_then(Value::as_u64) {
             cmd.env("HDW_SHIM_FAIL_FROM", k.to_string());
+        }
+        if let Some(k) = shim.get("errno").and_then(Value::as_u64) {
+            cmd.env("HDW_SHIM_ERRNO", k.to_string());
         }
         if let Some(k) = shim.get("slow_after_fail_ms").and_then(Value::as_u64) {
             cmd.env("HDW_SHIM_SLOW_AFTER_FAIL", k.to_string());
